@@ -71,6 +71,36 @@ mod vharness {
         kani::cover!(end - start > 1usize << 30, "cover:span:very-long-span");
     }
 
+    //@harness props=C16,C15 strength=bounded bound="3 source files of any length <= 2^40; two ANY spans a, b of the same file with a.start <= b.end, whichever encoding each takes" clause="make_surrounding_span(a, b) is the span (file, a.start, b.end) - the span of a syntax node that starts at its first token and ends at its last - for spans of every length; its two internal assertions cannot fire under the stated precondition" timeout=1500 replay=span_len
+    #[kani::proof]
+    #[kani::unwind(5)]
+    fn make_surrounding_span_contract() {
+        let (mut m, lens, ctxs) = mgr3();
+        let k: usize = kani::any();
+        kani::assume(k < 3);
+        let (s1, e1, s2, e2): (usize, usize, usize, usize) = (kani::any(), kani::any(), kani::any(), kani::any());
+        kani::assume(s1 <= e1 && e1 <= lens[k] && s2 <= e2 && e2 <= lens[k] && s1 <= e2);
+        let a = m.intern_span(ctxs[k], s1, e1);
+        let b = m.intern_span(ctxs[k], s2, e2);
+        let r = m.make_surrounding_span(a, b);
+        assert!(m.get_span(r) == (ctxs[k], s1, e2), "C16,C15:span:surrounding-span-is-first-start-to-last-end");
+    }
+
+    //@harness props=C16 strength=bounded bound="3 source files of any length <= 2^40; ANY span, interned twice" clause="registering the same (file, start, end) twice yields the same identifier, and both read back the triple" timeout=1500
+    #[kani::proof]
+    #[kani::unwind(5)]
+    fn intern_span_is_idempotent() {
+        let (mut m, lens, ctxs) = mgr3();
+        let k: usize = kani::any();
+        kani::assume(k < 3);
+        let (start, end): (usize, usize) = (kani::any(), kani::any());
+        kani::assume(start <= end && end <= lens[k]);
+        let a = m.intern_span(ctxs[k], start, end);
+        let b = m.intern_span(ctxs[k], start, end);
+        assert!(a == b, "C16:span:same-triple-same-identifier");
+        assert!(m.get_span(b) == (ctxs[k], start, end), "C16:span:roundtrip-for-every-length");
+    }
+
     // Interned path, minimal: ONE concrete span beyond the inline encoding, interned and read back.
     // (The 4-span version with idempotence/distinctness timed out at 1200 s: the real hashbrown
     //  code behind hash_map::Entry is too heavy for CBMC, and span.rs names that type by full path,
